@@ -649,75 +649,75 @@ Proof.
     eapply IH; [|exact E]. eapply reach_step; eassumption.
 Qed.
 
-Lemma rt_step_path tm e s s' : rt_step tm e s = Some s' ->
-  exists ls, rt_labels e s = Some ls /\ run true tm ls s = Some s'.
+Lemma rv_step_path tm e s s' : rv_step tm e s = Some s' ->
+  exists ls, rv_labels e s = Some ls /\ run true tm ls s = Some s'.
 Proof.
-  unfold rt_step. destruct (rt_labels e s) as [ls|]; [|discriminate]. intro E. exists ls. split; [reflexivity|exact E].
+  unfold rv_step. destruct (rv_labels e s) as [ls|]; [|discriminate]. intro E. exists ls. split; [reflexivity|exact E].
 Qed.
 
-Lemma rt_step_reach tm s0 e s s' : reach tm s0 s -> rt_step tm e s = Some s' -> reach tm s0 s'.
-Proof. intros R E. destruct (rt_step_path _ _ _ _ E) as (ls & _ & E'). eapply run_reach; eassumption. Qed.
+Lemma rv_step_reach tm s0 e s s' : reach tm s0 s -> rv_step tm e s = Some s' -> reach tm s0 s'.
+Proof. intros R E. destruct (rv_step_path _ _ _ _ E) as (ls & _ & E'). eapply run_reach; eassumption. Qed.
 
 (* an accepted trace stands for a label sequence that the model runs to the same state *)
-Theorem rt_run_path tm es : forall i s s', rt_run tm es i s = RtOk s' ->
-  exists ls, rt_path tm es s = Some ls /\ run true tm ls s = Some s'.
+Theorem rv_run_path tm es : forall i s s', rv_run tm es i s = RvOk s' ->
+  exists ls, rv_path tm es s = Some ls /\ run true tm ls s = Some s'.
 Proof.
-  induction es as [|e es IH]; intros i s s' E; cbn [rt_run rt_path] in *.
+  induction es as [|e es IH]; intros i s s' E; cbn [rv_run rv_path] in *.
   - injection E as <-. exists []. split; reflexivity.
-  - destruct (rt_step tm e s) as [s1|] eqn:E1; [|discriminate].
-    destruct (rt_step_path _ _ _ _ E1) as (ls & L & R1). rewrite L, R1.
+  - destruct (rv_step tm e s) as [s1|] eqn:E1; [|discriminate].
+    destruct (rv_step_path _ _ _ _ E1) as (ls & L & R1). rewrite L, R1.
     destruct (IH _ _ _ E) as (ls' & P & R2). rewrite P. exists (ls ++ ls'). split; [reflexivity|].
     rewrite run_app, R1. exact R2.
 Qed.
 
-Theorem rt_run_reach tm s0 es : forall i s s', reach tm s0 s -> rt_run tm es i s = RtOk s' -> reach tm s0 s'.
+Theorem rv_run_reach tm s0 es : forall i s s', reach tm s0 s -> rv_run tm es i s = RvOk s' -> reach tm s0 s'.
 Proof.
-  intros i s s' R E. destruct (rt_run_path _ _ _ _ _ E) as (ls & _ & E'). eapply run_reach; eassumption.
+  intros i s s' R E. destruct (rv_run_path _ _ _ _ _ E) as (ls & _ & E'). eapply run_reach; eassumption.
 Qed.
 
 (* acceptance is prefix-closed, and a rejected trace was accepted up to the offending event *)
-Lemma rt_run_prefix tm es : forall k i s s', rt_run tm es i s = RtOk s' ->
-  exists sk, rt_run tm (firstn k es) i s = RtOk sk.
+Lemma rv_run_prefix tm es : forall k i s s', rv_run tm es i s = RvOk s' ->
+  exists sk, rv_run tm (firstn k es) i s = RvOk sk.
 Proof.
   induction es as [|e es IH]; intros k i s s' E.
   - rewrite firstn_nil. exists s. reflexivity.
-  - destruct k as [|k]; [exists s; reflexivity|]. cbn [rt_run firstn] in *.
-    destruct (rt_step tm e s) as [s1|]; [|discriminate]. eapply IH; exact E.
+  - destruct k as [|k]; [exists s; reflexivity|]. cbn [rv_run firstn] in *.
+    destruct (rv_step tm e s) as [s1|]; [|discriminate]. eapply IH; exact E.
 Qed.
 
-Lemma rt_run_bad_prefix tm es : forall i s j sb, rt_run tm es i s = RtBad j sb ->
-  (i <= j)%nat /\ rt_run tm (firstn (j - i) es) i s = RtOk sb.
+Lemma rv_run_bad_prefix tm es : forall i s j sb, rv_run tm es i s = RvBad j sb ->
+  (i <= j)%nat /\ rv_run tm (firstn (j - i) es) i s = RvOk sb.
 Proof.
-  induction es as [|e es IH]; intros i s j sb E; cbn [rt_run] in E; [discriminate|].
-  destruct (rt_step tm e s) as [s1|] eqn:E1.
+  induction es as [|e es IH]; intros i s j sb E; cbn [rv_run] in E; [discriminate|].
+  destruct (rv_step tm e s) as [s1|] eqn:E1.
   - destruct (IH _ _ _ _ E) as [Hle E']. split; [lia|].
     replace (j - i)%nat with (S (j - S i))%nat.
-    + cbn [firstn rt_run]. rewrite E1. exact E'.
+    + cbn [firstn rv_run]. rewrite E1. exact E'.
     + clear - Hle. lia.
   - injection E as <- <-. split; [apply Nat.le_refl|]. rewrite Nat.sub_diag. reflexivity.
 Qed.
 
 (* the two worlds connected: every state along an accepted trace of the real relay -- the
    state after each of its prefixes -- is reachable, hence satisfies the invariants *)
-Theorem relay_trace_sound tm cs ss es s : rt_run tm es O (init cs ss) = RtOk s ->
-  (exists ls, rt_path tm es (init cs ss) = Some ls /\ run true tm ls (init cs ss) = Some s) /\
-  forall k, exists sk, rt_run tm (firstn k es) O (init cs ss) = RtOk sk /\ reach tm (init cs ss) sk /\
+Theorem relay_trace_sound tm cs ss es s : rv_run tm es O (init cs ss) = RvOk s ->
+  (exists ls, rv_path tm es (init cs ss) = Some ls /\ run true tm ls (init cs ss) = Some s) /\
+  forall k, exists sk, rv_run tm (firstn k es) O (init cs ss) = RvOk sk /\ reach tm (init cs ss) sk /\
     conserved_I (concat cs) sk /\ conserved_O (concat ss) sk /\
     lock_discipline sk /\ handshaking_iff_worker sk /\ parked_only_while_handshaking sk /\ status_read_still_current sk.
 Proof.
-  intro E. split; [eapply rt_run_path; exact E|]. intro k.
-  destruct (rt_run_prefix _ _ k _ _ _ E) as (sk & Ek). exists sk. split; [exact Ek|].
-  assert (R : reach tm (init cs ss) sk) by (eapply rt_run_reach; [apply reach_refl|exact Ek]).
+  intro E. split; [eapply rv_run_path; exact E|]. intro k.
+  destruct (rv_run_prefix _ _ k _ _ _ E) as (sk & Ek). exists sk. split; [exact Ek|].
+  assert (R : reach tm (init cs ss) sk) by (eapply rv_run_reach; [apply reach_refl|exact Ek]).
   split; [exact R|]. destruct (relay_conserved _ _ _ _ R) as [A B]. split; [exact A|]. split; [exact B|].
   apply (relay_aux _ _ _ _ R).
 Qed.
 
-Lemma rt_run_bad_event tm es : forall i s j sb, rt_run tm es i s = RtBad j sb ->
-  exists e, nth_error es (j - i) = Some e /\ rt_step tm e sb = None.
+Lemma rv_run_bad_event tm es : forall i s j sb, rv_run tm es i s = RvBad j sb ->
+  exists e, nth_error es (j - i) = Some e /\ rv_step tm e sb = None.
 Proof.
-  induction es as [|e es IH]; intros i s j sb E; cbn [rt_run] in E; [discriminate|].
-  destruct (rt_step tm e s) as [s1|] eqn:E1.
-  - destruct (rt_run_bad_prefix _ _ _ _ _ _ E) as [Hle _]. destruct (IH _ _ _ _ E) as (e' & N & X).
+  induction es as [|e es IH]; intros i s j sb E; cbn [rv_run] in E; [discriminate|].
+  destruct (rv_step tm e s) as [s1|] eqn:E1.
+  - destruct (rv_run_bad_prefix _ _ _ _ _ _ E) as [Hle _]. destruct (IH _ _ _ _ E) as (e' & N & X).
     exists e'. split; [|exact X].
     replace (j - i)%nat with (S (j - S i))%nat; [exact N|].
     clear - Hle. lia.
@@ -727,11 +727,11 @@ Qed.
 (* a rejected trace: everything in front of the offending event is a path of the model and
    the state the model is in at that point satisfies the invariants; the disagreement is
    about that one event *)
-Theorem relay_trace_rejected tm cs ss es j sb : rt_run tm es O (init cs ss) = RtBad j sb ->
-  rt_run tm (firstn j es) O (init cs ss) = RtOk sb /\ reach tm (init cs ss) sb /\
-  (exists e, nth_error es j = Some e /\ rt_step tm e sb = None).
+Theorem relay_trace_rejected tm cs ss es j sb : rv_run tm es O (init cs ss) = RvBad j sb ->
+  rv_run tm (firstn j es) O (init cs ss) = RvOk sb /\ reach tm (init cs ss) sb /\
+  (exists e, nth_error es j = Some e /\ rv_step tm e sb = None).
 Proof.
-  intro E. destruct (rt_run_bad_prefix _ _ _ _ _ _ E) as [_ P]. rewrite Nat.sub_0_r in P.
-  split; [exact P|]. split; [eapply rt_run_reach; [apply reach_refl|exact P]|].
-  destruct (rt_run_bad_event _ _ _ _ _ _ E) as (e & N & X). rewrite Nat.sub_0_r in N. eauto.
+  intro E. destruct (rv_run_bad_prefix _ _ _ _ _ _ E) as [_ P]. rewrite Nat.sub_0_r in P.
+  split; [exact P|]. split; [eapply rv_run_reach; [apply reach_refl|exact P]|].
+  destruct (rv_run_bad_event _ _ _ _ _ _ E) as (e & N & X). rewrite Nat.sub_0_r in N. eauto.
 Qed.
